@@ -158,6 +158,9 @@ type bundle struct {
 	sw, su                                 stats.Sample // weighted, unweighted (unsorted, ties)
 	kde                                    *stats.KDE
 	kdeB                                   *stats.KDE
+	kde0                                   *stats.KDE // Bandwidth 0: used through private struct copies only
+	ebacks                                 [][]graph.Edge
+	attrTab                                []graphout.DotAttr // shared table: callbacks return sub-slices with spare capacity
 	lh                                     *stats.LinearHist
 	gh                                     *stats.LogHist
 	marks                                  *graphalg.NodeMarks
@@ -217,6 +220,17 @@ func (b *bundle) carveI(name string, rng *mon.Rand, xs []int) []int {
 	return back[pre : pre+len(xs) : pre+len(xs)+spare]
 }
 
+func (b *bundle) carveE(rng *mon.Rand, xs []graph.Edge) []graph.Edge {
+	pre, spare, post := 2, rng.Intn(3), 2
+	back := make([]graph.Edge, pre+len(xs)+spare+post)
+	for i := range back {
+		back[i] = graph.Edge{Node: -0x5eed0000 - i, Edge: -7 - i}
+	}
+	copy(back[pre:], xs)
+	b.ebacks = append(b.ebacks, back)
+	return back[pre : pre+len(xs) : pre+len(xs)+spare]
+}
+
 // snapshot hashes every piece of input memory, one hash per named region.
 func (b *bundle) snapshot() map[string]uint64 {
 	m := map[string]uint64{}
@@ -227,8 +241,21 @@ func (b *bundle) snapshot() map[string]uint64 {
 	for _, back := range b.ibacks {
 		h = h.Is(back)
 	}
-	m["int-slices(graphs,idom,node/edge lists)"] = h.Sum()
+	m["int-slices(graphs,idom,node lists)"] = h.Sum()
+	he := mon.NewHasher()
+	for _, back := range b.ebacks {
+		for _, ed := range back {
+			he = he.I(ed.Node).I(ed.Edge)
+		}
+	}
+	m["edge-lists(SubgraphKeep/Remove arguments)"] = he.Sum()
+	ha := mon.NewHasher()
+	for _, a := range b.attrTab {
+		ha = ha.S(a.Name).S(fmt.Sprint(a.Val))
+	}
+	m["Dot attribute table (slices returned by NodeAttrs/EdgeAttrs)"] = ha.Sum()
 	hs := mon.NewHasher().B(b.sw.Sorted).B(b.su.Sorted).F(b.kde.Bandwidth).F(b.kdeB.Bandwidth).F(b.kdeB.BoundaryMin).F(b.kdeB.BoundaryMax).I(int(b.kde.Kernel)).
+		F(b.kde0.Bandwidth).B(b.kde0.Sample.Sorted).I(int(b.kde0.Kernel)).
 		F(b.lin.Min).F(b.lin.Max).I(b.lin.Base).B(b.lin.Clamp).F(b.lg.Min).F(b.lg.Max).I(b.lg.Base).B(b.lg.Clamp)
 	m["struct-fields(Sample.Sorted,KDE,scales)"] = hs.Sum()
 	u, cs, o := b.lh.Counts()
@@ -295,6 +322,15 @@ func newBundle(seed uint64) *bundle {
 	lo, hi := stats.Bounds(kx)
 	b.kdeB = &stats.KDE{Sample: stats.Sample{Xs: kx, Weights: b.carveF("KDE.Sample.Weights", rng, w)}, Kernel: stats.GaussianKernel, Bandwidth: rng.Uniform(0.5, 20),
 		BoundaryMin: lo - 1, BoundaryMax: hi + 2}
+	// a KDE whose Bandwidth is still 0 (the lazily filled field is a
+	// documented in-place operation, so callers work on private struct copies;
+	// the Sample's backing arrays are shared)
+	k0 := vals(n, false)
+	for i := range k0 {
+		k0[i] += float64(i%7) * 0.375 // distinct enough for a non-zero IQR and spread
+	}
+	// (unweighted: the default bandwidth of a weighted Sample is documented as not implemented)
+	b.kde0 = &stats.KDE{Sample: stats.Sample{Xs: b.carveF("KDE(Bandwidth 0).Sample.Xs", rng, k0)}, Kernel: stats.KDEKernel(rng.Intn(2))}
 	b.lh = stats.NewLinearHist(-40, 40, 16)
 	b.gh = stats.NewLogHist(2, 2, 1e3)
 	for i := 0; i < 60; i++ {
@@ -347,7 +383,9 @@ func newBundle(seed uint64) *bundle {
 	b.wg = &c20Weighted{b.g, ww}
 	b.bi = graph.MakeBiGraph(b.g)
 	b.root = 0
-	b.idom = b.carveI("idom", rng, graphalg.IDom(b.bi, b.root))
+	// b.bi itself stays untouched until an inventory entry uses it (first use
+	// may happen concurrently); the idom argument comes from another instance
+	b.idom = b.carveI("idom", rng, graphalg.IDom(graph.MakeBiGraph(b.g), b.root))
 	perm := rng.Perm(gn)
 	keep := map[int]bool{}
 	var kn []int
@@ -363,6 +401,10 @@ func newBundle(seed uint64) *bundle {
 			}
 		}
 	}
+	for i, j := range rng.Perm(len(b.keepEdges)) {
+		b.keepEdges[i], b.keepEdges[j] = b.keepEdges[j], b.keepEdges[i]
+	}
+	b.keepEdges = b.carveE(rng, b.keepEdges)
 	b.rmNodes = b.carveI("rmNodes", rng, perm[gn/2+1:][:min(2, gn-gn/2-1)])
 	for v := 0; v < gn; v++ {
 		for e := range g[v] {
@@ -370,6 +412,19 @@ func newBundle(seed uint64) *bundle {
 				b.rmEdges = append(b.rmEdges, graph.Edge{Node: v, Edge: e})
 			}
 		}
+	}
+	for i, j := range rng.Perm(len(b.rmEdges)) {
+		b.rmEdges[i], b.rmEdges[j] = b.rmEdges[j], b.rmEdges[i]
+	}
+	b.rmEdges = b.carveE(rng, b.rmEdges)
+	for i := 0; i < gn; i++ {
+		// two table entries per node; a callback returns the first as a
+		// one-element slice whose capacity reaches over the rest of the table
+		first := graphout.DotAttr{Name: "color", Val: fmt.Sprintf("c%d", i)}
+		if i%3 == 0 {
+			first = graphout.DotAttr{Name: "label", Val: fmt.Sprintf("L%d", i)}
+		}
+		b.attrTab = append(b.attrTab, first, graphout.DotAttr{Name: "canary", Val: i})
 	}
 	for i := 0; i < gn; i++ {
 		b.labels = append(b.labels, fmt.Sprintf("n%d \"q\" \\ {x|y} <%d>\nz", i, rng.Intn(9)))
@@ -636,6 +691,21 @@ var c20Inventory = []entry{
 			e.F(h)
 		}
 	}},
+	{"KDE with Bandwidth 0 (private struct copies of one shared Sample)", []string{"stats.KDE.PDF", "stats.KDE.CDF", "stats.KDE.Bounds"}, "stats", func(b *bundle, e *enc) {
+		e.each(4, 3, func(i int) []float64 {
+			k := *b.kde0 // the struct is the caller's own; Xs and Weights are shared
+			switch i {
+			case 0:
+				return []float64{k.PDF(b.x), k.Bandwidth, 0}
+			case 1:
+				return []float64{k.CDF(b.x), k.Bandwidth, 0}
+			case 2:
+				l, h := k.Bounds()
+				return []float64{l, h, k.Bandwidth}
+			}
+			return []float64{stats.InvCDF(&k)(b.y), stats.Rand(&k)(rand.New(rand.NewSource(b.rseed))), k.Bandwidth}
+		})
+	}},
 	{"Bandwidth rules", []string{"stats.BandwidthScott", "stats.BandwidthSilverman"}, "stats", func(b *bundle, e *enc) {
 		e.F(stats.BandwidthScott(b.su))
 		e.F(stats.BandwidthSilverman(b.su))
@@ -844,6 +914,11 @@ var c20Inventory = []entry{
 			}}
 		e.S(d.Sprint(b.g))
 		e.S(graphout.Dot{}.Sprint(b.g))
+		gn := b.g.NumNodes()
+		d2 := graphout.Dot{Label: func(n int) string { return b.labels[n] },
+			NodeAttrs: func(n int) []graphout.DotAttr { return b.attrTab[2*n : 2*n+1] },
+			EdgeAttrs: func(n, ed int) []graphout.DotAttr { k := (n*7 + ed) % gn; return b.attrTab[2*k : 2*k+1] }}
+		e.S(d2.Sprint(b.g))
 		e.S(graphout.DotString(b.labels[0]))
 	}},
 }
@@ -1100,6 +1175,8 @@ func c20Run(r *mon.Run) {
 		r.Serial("cross-process-order", 1, func(w *mon.W, _ int) { w.Note("cross-process-order") })
 		return
 	}
+	// the concurrent stage comes first: the process has made no library call yet
+	c20Concurrent(r, false)
 	nb := r.Pick(150, 1500)
 	r.Parallel("guard+determinism", nb, func(w *mon.W, i int) {
 		seed := w.Rng.Uint64()
@@ -1107,7 +1184,6 @@ func c20Run(r *mon.Run) {
 		w.Distinct(seed)
 	})
 	c20CrossProcess(r)
-	c20Concurrent(r, false)
 }
 
 // c20Concurrent runs the inventory from 16 goroutines on shared bundles. With
@@ -1126,18 +1202,11 @@ func c20Concurrent(r *mon.Run, race bool) {
 		bundles[i] = newBundle(mon.NewRand(r.Seed, 0xc0c, uint64(i)).Uint64())
 	}
 	ne := len(c20Inventory)
-	// sequential reference results
-	seq := make([][][]uint64, nb)
-	for bi, b := range bundles {
-		seq[bi] = make([][]uint64, ne)
-		for ei := range c20Inventory {
-			seq[bi][ei], _, _ = runEntry(&c20Inventory[ei], b)
-		}
-	}
-	snaps := make([]map[string]uint64, nb)
-	for bi, b := range bundles {
-		snaps[bi] = b.snapshot()
-	}
+	// The shared bundles are COLD: nothing has been called on them (nor, in
+	// the race stage, on the library at all) before the goroutines start, so
+	// any first-use initialisation, per object or per package, happens under
+	// concurrency. The sequential reference results and the reference
+	// snapshots come afterwards from twin bundles built from the same seeds.
 	type stamp struct{ t0, t1 int64 }
 	results := make([][][][]uint64, G)
 	panics := make([][]string, G)
@@ -1182,6 +1251,16 @@ func c20Concurrent(r *mon.Run, race bool) {
 	}
 	close(start)
 	wg.Wait()
+	seq := make([][][]uint64, nb)
+	snaps := make([]map[string]uint64, nb)
+	for bi := range bundles {
+		twin := newBundle(bundles[bi].seed)
+		snaps[bi] = twin.snapshot()
+		seq[bi] = make([][]uint64, ne)
+		for ei := range c20Inventory {
+			seq[bi][ei], _, _ = runEntry(&c20Inventory[ei], twin)
+		}
+	}
 
 	class := "concurrent"
 	if race {
@@ -1207,6 +1286,17 @@ func c20Concurrent(r *mon.Run, race bool) {
 			for k, v := range snaps[bi] {
 				if after[k] != v {
 					w.Violate("input-modified-concurrent", fmt.Sprintf("shared input %s changed during the concurrent stage", k), c20Case{b.seed, ""})
+				}
+			}
+			// the shared bundle, used sequentially once everything is quiet,
+			// still answers like its never-shared twin
+			for ei := range c20Inventory {
+				w.Eval(class + ":after-join")
+				u, p, pv := runEntry(&c20Inventory[ei], b)
+				if p {
+					w.Violate("panic-after-concurrent", fmt.Sprintf("%s panicked on a bundle that had been used concurrently: %v", c20Inventory[ei].name, pv), c20Case{b.seed, c20Inventory[ei].name})
+				} else if !equalU(u, seq[bi][ei]) {
+					w.Violate("state-after-concurrent", fmt.Sprintf("%s on a bundle that had been used concurrently differs from the same call on a fresh twin%s", c20Inventory[ei].name, firstDiff(seq[bi][ei], u)), c20Case{b.seed, c20Inventory[ei].name})
 				}
 			}
 		}
